@@ -105,7 +105,27 @@ def extract(params):
             bad.append(f"{g}: {got.tolist()} expected {want.tolist()}")
         if got is a or not np.array_equal(a, a0):
             bad.append(f"{g}: caller array modified / not a fresh array")
-    return {"violated": bool(bad), "problems": bad}
+    # label sets vs array dtypes: group labels are plain integers; a label outside the range of the array's dtype matches nothing
+    import itertools
+    pool = [1, 2, 4, 255, 256, 257, 258, 65537, 65538]
+    for dt in (np.uint8, np.uint16, np.int32):
+        vals = [v for v in (0, 1, 2, 3, 4, 7, 255, 256, 258, 65535) if v <= np.iinfo(dt).max]
+        arr = np.array(vals, dt)
+        for k in (1, 2):
+            for labs in itertools.combinations(pool, k):
+                wide = arr.astype(np.int64)
+                keep = np.isin(wide, list(labs))
+                for g, want in ((LabelGroup(list(labs)), np.where(keep, wide, 0)), (LabelMergeGroup(list(labs)), keep.astype(np.int64))):
+                    try:
+                        got = g(arr.copy()).astype(np.int64)
+                    except Exception as e:
+                        bad.append(f"{g} on {np.dtype(dt).name}: raised {type(e).__name__}: {e}"[:160])
+                        continue
+                    if not np.array_equal(got, want):
+                        bad.append(f"{g} on {np.dtype(dt).name} array {vals}: {got.tolist()} expected {want.tolist()}")
+                if len(bad) > 4:
+                    break
+    return {"violated": bool(bad), "problems": bad[:5]}
 
 
 def e2e(params):
@@ -116,8 +136,10 @@ def e2e(params):
     defs = {"Plain": ([1, 2], "plain"), "merged": ([5, 6], "merge"), "one": ([9], "single")}
     from panoptica.metrics import Metric
     defs2 = {"one": ([9], "single"), "Plain": ([1, 2], "plain"), "merged": ([5, 6], "merge")}
+    # group labels beyond the uint8 range of the arrays (257 = 1 mod 256, 265 = 9 mod 256): they match no voxel
+    defs3 = {"Plain": ([1, 2], "plain"), "merged": ([5, 6, 257], "merge"), "one": ([9], "single"), "far": ([265, 300], "plain")}
     for it in ("SEMANTIC", "UNMATCHED_INSTANCE", "MATCHED_INSTANCE"):
-        for dd, dec in ((defs, None), (defs2, (Metric.IOU, 0.8)), (defs2, (Metric.DSC, 0.9))):
+        for dd, dec in ((defs, None), (defs2, (Metric.IOU, 0.8)), (defs2, (Metric.DSC, 0.9)), (defs3, None)):
             try:
                 bad += [f"{it}: {b}" for b in compare_grouped(pred.copy(), ref.copy(), it, dd, dec)]
             except Exception as e:
